@@ -551,6 +551,25 @@ func (e *Env) evalCall(n *ECall) Val {
 	case "statusText":
 		e.x.C.decl("(declare-fun statusText (Int) String)")
 		return sv(fmt.Sprintf("(statusText %s)", arg(0).Term))
+	case "timeParseOk":
+		e.x.declTime()
+		return b(fmt.Sprintf("(timeParseOk %s %s)", arg(0).Term, arg(1).Term))
+	case "timeParseNs":
+		e.x.declTime()
+		return iv(fmt.Sprintf("(timeParseNs %s %s)", arg(0).Term, arg(1).Term))
+	case "timeFormat":
+		e.x.declTime()
+		return sv(fmt.Sprintf("(timeFormat %s %s)", arg(0).Term, arg(1).Term))
+	case "wallNs":
+		e.x.declTime()
+		return iv(fmt.Sprintf("(+ (t_ns %s) (* 1000000000 (zoneOffset (t_loc %s) (t_ns %s))))", arg(0).Term, arg(0).Term, arg(0).Term))
+	case "urlParseOk":
+		e.x.declURL(e.st)
+		return b(fmt.Sprintf("(urlParseOk %s)", arg(0).Term))
+	case "urlParsePath":
+		e.x.declURL(e.st)
+		ut := e.x.urlType()
+		return sv(fmt.Sprintf("(%s (urlParseVal %s))", e.x.C.selName(ut, fieldIndex(ut, "Path")), arg(0).Term))
 	case "zoneOffset":
 		e.x.declTime()
 		return iv(fmt.Sprintf("(zoneOffset (t_loc %s) (t_ns %s))", arg(0).Term, arg(0).Term))
